@@ -22,6 +22,8 @@ func init() {
 	})
 }
 
+var stopEarly = os.Getenv("VERIF_C04_STOP_ON_VIOLATION") != ""
+
 func run(r *core.Run) {
 	x := &explorer{r: r, confirm: map[string]bool{}, memo: map[string]*memoEntry{}, harness: make([]*harness, r.Workers+1)}
 	r.Assume("the JS-side observation battery and getter/setter logging run on the engine under test (plain property reads, string concatenation, Map lookups, try/catch)")
@@ -66,6 +68,9 @@ func run(r *core.Run) {
 	r.Parallel(int64(len(scs)), 1, func(worker int, lo, hi int64) {
 		for i := lo; i < hi; i++ {
 			sc := scs[order[i]]
+			if stopEarly && r.ViolationCount() > 0 {
+				return // development aid for mutant demonstrations: an unlisted violation was found
+			}
 			serial := func(n int64, fn func(worker int, lo, hi int64)) bool {
 				for a := int64(0); a < n; a += 64 {
 					if r.Expired() {
@@ -158,4 +163,3 @@ func replay(r *core.Run, raw json.RawMessage) {
 		fmt.Println("the case passes")
 	}
 }
-
